@@ -492,7 +492,7 @@ type workerState struct {
 	crashes     int
 }
 
-var raceReports int
+var raceReports, confirmedHangs int
 var extraOuts []string
 
 func runDriver(chk *Check, env *Env, nw int, only int) int {
@@ -555,9 +555,19 @@ func runDriver(chk *Check, env *Env, nw int, only int) int {
 					return
 				}
 				if hang {
+					if confirmedHangs >= 3 {
+						// the verdict is settled (three hangs reproduced in isolation); spending three
+						// case timeouts on each further one would only delay it
+						agg.Notes = append(agg.Notes, fmt.Sprintf("worker %d stopped at case %d after another watchdog firing: three hangs were already reproduced in isolation, the worker's remaining cases were not run", ws.i, idx))
+						mu.Unlock()
+						return
+					}
 					mu.Unlock() // the re-test may take minutes: do not block the other workers' bookkeeping
 					confirmed, redo := confirmHang(chk, env, self, idx)
 					mu.Lock()
+					if confirmed {
+						confirmedHangs++
+					}
 					if !confirmed && redo != "" {
 						extraOuts = append(extraOuts, redo) // completed alone: the watchdog firing was load
 					} else if !confirmed {
